@@ -105,6 +105,10 @@ class SyncProp(Prop):
                     "same_program": bool(rec["same_program"]),
                 }
                 res.append(("conform", op, {"ok": {"action": syncbase.action_of(rec), "report": rec["report"]}}))
+            # the report of the whole run: `effect[filename] = effect.get(filename, False) or modified` over all calls
+            if rr.get("effect") is not None and all("report" in rec for rec in rr["files"]):
+                calls = [[rec["file"], bool(rec["report"])] for rec in rr["files"]]
+                res.append(("report", {"op": "report", "calls": calls}, {"ok": [[k, bool(v)] for k, v in rr["effect"].items()]}))
         return res
 
     def shrink_candidates(self, c):
